@@ -22,6 +22,7 @@ AUDITED = {
     'codegen::pkg_tree::from_pkgs|into_iter|HashMap<&FastStr, Vec<&&[FastStr]>>': ('sorted', 'children order is random here; the only consumer (write_stream) sorts siblings by their full path', 'write_stream_sorted'),
     'codegen::workspace::Workspace::<B>::group_defs|iter|HashMap<&DefLocation, Vec<(&DefId, &DefLocation)>>': ('keyed', 're-keyed into a map; each entry later creates its own crate directory', None),
     'codegen::workspace::Workspace::<B>::group_defs|keys|HashMap<&DefLocation, Vec<(&DefId, &DefLocation)>>': ('sorted', 'member names are sorted, then de-duplicated, before being joined', 'members_sorted_then_dedup'),
+    'middle::context::ContextBuilder::build|extend|HashMap<DefId, usize>': ('keyed', 'the pairs are inserted into the lookup map cx.names, which is only ever queried with contains_key', None),
     'plugin::AutoDerivePlugin::<F>::can_derive|iter|HashSet<DefId>': ('keyed', 'idempotent keyed inserts of CanDerive::No', None),
     '<plugin::workspace::_WorkspacePlugin as plugin::Plugin>::on_codegen_uint|iter|HashMap<DefLocation, Vec<(DefId, DefLocation)>>': ('keyed', 'per-location strings; inner order comes from the Vec', None),
 }
@@ -144,6 +145,18 @@ def run(ctx):
                             continue
                         reason += ' [%s]' % why
                     rep.ok('R17.a', 'R17.a|' + key, '%s: %s' % (cls, reason), cs.loc())
+            # a seeded hash container handed as the SOURCE to extend / from_iter / append is iterated there (explicit
+            # .iter() / .into_iter() / for-loops are already covered by the iteration rule above)
+            if cs.name in ('extend', 'from_iter', 'append') and cs.argtys:
+                src_t = cs.argtys[-1]
+                c = container(src_t)
+                if c and (len(cs.argtys) > 1 or cs.name == 'from_iter'):
+                    key = '%s|%s|%s' % (b.key, cs.name, c)
+                    if key in AUDITED:
+                        seen_keys.add(key)
+                        rep.ok('R17.a', 'R17.a|' + key, '%s: %s' % AUDITED[key][:2], cs.loc())
+                    else:
+                        rep.bad('R17.a', 'R17.a|' + key, cs.loc(), '%s consumes a %s, whose iteration order differs between processes (per-process hash seed): the order of what is built from it may differ from run to run' % (cs.name, c))
             if PAR.match(cs.name) and 'rayon' in (cs.callee + (cs.decl or '')):
                 key = '%s|%s' % (b.key, cs.name)
                 state = [g for g in cs.gargs if not g.startswith('{closure') and not g.startswith("'")]
